@@ -167,6 +167,52 @@ func ruleS7(p *Prog, r *Report) {
 			r.Decide(!reach[f], R, "no-ledger:"+p.Name(f), p.Pos(f.Pos()), "cannot reach BaseStorage.Retrieve", "RetrieveIfLoaded can reach the ledger")
 		}
 	}
+	// lookups that stay in memory (serve an id, return a Slab, cannot reach the ledger): "loaded" means in the write
+	// set OR in the read cache. A nil answer may only be given after both layers missed.
+	for _, f := range p.TopFuncs() {
+		if recvName(f) != storageT || reach[f] || !hasParamOfType(f, "SlabID") || !returnsSlab(f) || !isExportedAPI(f) {
+			continue
+		}
+		if p.firstLookup(f, "deltas") == nil && p.firstLookup(f, "cache") == nil {
+			continue
+		}
+		n++
+		missOK := true
+		var where ssa.Instruction
+		for _, ret := range returnsOf(f) {
+			if len(ret.Results) == 0 || !isNilConst(canon(ret.Results[0])) {
+				continue
+			}
+			for _, layer := range []string{"deltas", "cache"} {
+				dom := false
+				for _, b := range f.Blocks {
+					if ifi, ok := b.Instrs[len(b.Instrs)-1].(*ssa.If); ok {
+						if _, ok := p.commaOkLookupTest(ifi, layer); ok && edgeDominates(b, 1, ret.Block()) {
+							dom = true
+						}
+					}
+				}
+				if !dom {
+					missOK = false
+					where = ret
+				}
+			}
+		}
+		pos := p.Pos(f.Pos())
+		if where != nil {
+			pos = p.InstrPos(where)
+		}
+		r.Decide(missOK, R, "loaded-lookup-both-layers:"+p.Name(f), pos, "'not loaded' is answered only after the write set and the read cache both missed", "an in-memory lookup answers 'not loaded' without having consulted both the write set and the read cache: slabs that were committed or read (and are cached) would look unloaded")
+		for _, layer := range []string{"deltas", "cache"} {
+			for _, b := range f.Blocks {
+				if ifi, ok := b.Instrs[len(b.Instrs)-1].(*ssa.If); ok {
+					if lk, ok := p.commaOkLookupTest(ifi, layer); ok {
+						p.checkHitReturns(r, R, f, b, lk, layer)
+					}
+				}
+			}
+		}
+	}
 	// in any storage routine that consults both maps for an id, the cache lookup lies on the miss edge of the deltas lookup
 	for _, f := range p.TopFuncs() {
 		if recvName(f) != storageT || !hasParamOfType(f, "SlabID") || !returnsSlab(f) {
